@@ -338,6 +338,16 @@ func c18NotHeld(c *core.Ctx) {
 			reacq[k] = chain
 		}
 	}
+	// the same, from Close alone: a lock that Close can take is reported under its own construct, so that a
+	// recorded Send re-entry finding does not hide a new Close re-entry on the same emit
+	reacqClose := map[string][]string{}
+	if len(roots) == 3 {
+		for k, chain := range c.P.SyncAcquires(roots[2]) {
+			if strings.Contains(k, ".") {
+				reacqClose[k] = chain
+			}
+		}
+	}
 	var rl []string
 	for k := range reacq {
 		rl = append(rl, k)
@@ -403,7 +413,7 @@ func c18NotHeld(c *core.Ctx) {
 			def = s.call
 		}
 		held := lc.MayHeldAt(s.u, s.loc, def)
-		var bad []string
+		var bad, badClose []string
 		for l, w := range held {
 			base := strings.TrimSuffix(l, "#R")
 			if excluded[base] {
@@ -412,8 +422,22 @@ func c18NotHeld(c *core.Ctx) {
 			if _, re := reacq[base]; re {
 				bad = append(bad, keyf("%s (%s)", l, w))
 			}
+			if chain, re := reacqClose[base]; re {
+				badClose = append(badClose, keyf("%s (%s; Close re-locks it via %v)", l, w, chain))
+			}
 		}
 		sort.Strings(bad)
+		sort.Strings(badClose)
+		closedNow := s.u.Key == sockOnClose && s.what == "emit(close)@session" && s.u.Graph().GuardedBy(s.loc, onCloseLicence())
+		if !closedNow {
+			// Close on a closed session returns before doing anything; everywhere else it must not need a held lock
+			under := ""
+			if len(badClose) > 0 {
+				under = " under " + strings.SplitN(badClose[0], " ", 2)[0]
+			}
+			c.Check(R, keyf("%s/%s%s ← Close", s.u.Key, s.what, under), s.call.Pos(), len(badClose) == 0,
+				keyf("application code runs with %v possibly held; a listener calling Close re-locks it on the same goroutine (self-deadlock)", badClose))
+		}
 		// named exception: the session's close event. At that point the state has been swapped to "closed"
 		// (the emit is dominated by the transition's licence), and C03.5 shows sendPacket reaches flush only
 		// when the state is neither closing nor closed, while Close never flushes: flushMu cannot be re-acquired.
